@@ -128,8 +128,33 @@ static void case_mpn(ByteSource& in, CaseInfo& ci) {
   }
 }
 static void check(ByteSource& in, CaseInfo& ci) { switch (in.pick({5, 6, 3})) { case 0: case_mpz_logic(in, ci); break; case 1: case_mpz_bit(in, ci); break; default: case_mpn(in, ci); break; } }
+// ---- exhaustive sweep: every pair of signed values of up to three limbs with limbs from {0,1,2^63-1,2^63,2^64-2,2^64-1} ----------
+static uint64_t sweep_count() { return 432ull * 432ull; }
+static void sweep_item(uint64_t i, CaseInfo& ci) {
+  uint64_t ia = i % 432, ib = i / 432; Int A = palette_int(ia % 216, 3), B = palette_int(ib % 216, 3); if (ia >= 216) A = -A; if (ib >= 216) B = -B;
+  ci.d("a=%s b=%s", show(A).c_str(), show(B).c_str());
+  mpz_t a, b, r; mpz_init(a); mpz_init(b); mpz_init(r); struct Clr { mpz_ptr x, y, z; ~Clr() { mpz_clear(x); mpz_clear(y); mpz_clear(z); } } clr{a, b, r}; mpz_from_int(a, A); mpz_from_int(b, B);
+  Int EA = ref::bitop(A, B, [](uint64_t x, uint64_t y) { return x & y; }), EO = ref::bitop(A, B, [](uint64_t x, uint64_t y) { return x | y; }), EX = ref::bitop(A, B, [](uint64_t x, uint64_t y) { return x ^ y; });
+  mpz_and(r, a, b); REQUIRE_WF(r, "mpz_and"); REQUIRE(int_from_mpz(r) == EA, "mpz_and(%s, %s)", show(A).c_str(), show(B).c_str());
+  mpz_ior(r, a, b); REQUIRE_WF(r, "mpz_ior"); REQUIRE(int_from_mpz(r) == EO, "mpz_ior(%s, %s)", show(A).c_str(), show(B).c_str());
+  mpz_xor(r, a, b); REQUIRE_WF(r, "mpz_xor"); REQUIRE(int_from_mpz(r) == EX, "mpz_xor(%s, %s)", show(A).c_str(), show(B).c_str());
+  { mpz_set(r, a); mpz_and(r, r, b); REQUIRE(int_from_mpz(r) == EA, "mpz_and in place (%s, %s)", show(A).c_str(), show(B).c_str()); mpz_set(r, b); mpz_ior(r, a, r); REQUIRE(int_from_mpz(r) == EO, "mpz_ior in place (%s, %s)", show(A).c_str(), show(B).c_str()); mpz_set(r, a); mpz_xor(r, r, b); REQUIRE(int_from_mpz(r) == EX, "mpz_xor in place (%s, %s)", show(A).c_str(), show(B).c_str()); }
+  { uint64_t e = A.neg != B.neg ? BITCNT_MAX : ref_popcount(EX); uint64_t g = mpz_hamdist(a, b); REQUIRE(g == e, "mpz_hamdist(%s, %s) = %llu, expected %llu", show(A).c_str(), show(B).c_str(), (unsigned long long)g, (unsigned long long)e); }
+  if (ib < 12) {   // single-operand functions at a set of bit positions (the second index selects the position)
+    static const uint64_t pos[12] = {0, 1, 62, 63, 64, 65, 127, 128, 129, 191, 192, 300}; uint64_t bit = pos[ib]; bool cur = ref::tc_bit(A, bit); Int P = ref::pow2(bit);
+    mpz_com(r, a); REQUIRE_WF(r, "mpz_com"); REQUIRE(int_from_mpz(r) == -A - Int(1), "mpz_com(%s)", show(A).c_str());
+    REQUIRE(mpz_tstbit(a, bit) == (int)cur, "mpz_tstbit(%s, %llu)", show(A).c_str(), (unsigned long long)bit);
+    mpz_set(r, a); mpz_setbit(r, bit); REQUIRE_WF(r, "mpz_setbit"); REQUIRE(int_from_mpz(r) == (cur ? A : A + P), "mpz_setbit(%s, %llu)", show(A).c_str(), (unsigned long long)bit);
+    mpz_set(r, a); mpz_clrbit(r, bit); REQUIRE_WF(r, "mpz_clrbit"); REQUIRE(int_from_mpz(r) == (cur ? A - P : A), "mpz_clrbit(%s, %llu)", show(A).c_str(), (unsigned long long)bit);
+    mpz_set(r, a); mpz_combit(r, bit); REQUIRE_WF(r, "mpz_combit"); REQUIRE(int_from_mpz(r) == (cur ? A - P : A + P), "mpz_combit(%s, %llu)", show(A).c_str(), (unsigned long long)bit);
+    for (int want = 0; want < 2; want++) { uint64_t e = BITCNT_MAX, lim = 64 * (uint64_t)A.size() + 1; if (bit >= lim) e = (A.neg == (bool)want) ? bit : BITCNT_MAX; else for (uint64_t k = bit; k <= lim; k++) if (ref::tc_bit(A, k) == (bool)want) { e = k; break; }
+      uint64_t g = want ? mpz_scan1(a, bit) : mpz_scan0(a, bit); REQUIRE(g == e, "mpz_scan%d(%s, %llu) = %llu, expected %llu", want, show(A).c_str(), (unsigned long long)bit, (unsigned long long)g, (unsigned long long)e); }
+    { uint64_t e = A.neg ? BITCNT_MAX : ref_popcount(A); REQUIRE(mpz_popcount(a) == e, "mpz_popcount(%s)", show(A).c_str()); }
+  }
+}
 namespace eng {
 PropDef g_prop = {"C10",
   "Cases: one call of mpz_and/ior/xor/com (all sign combinations, operands equal / negated / complemented / of different lengths, negatives with 1..10 low zero limbs, +-2^k, 2^k-1, -1, 0; outputs aliasing inputs), mpz_setbit/clrbit/combit/tstbit/scan0/scan1/popcount/hamdist (bit indices 0,63,64,.., at the top +-2, far above, around the lowest set bit), or of the mpn logical functions and_n..xnor_n/com (in place too), popcount, hamdist, scan0/scan1 (with the required bit present). Oracle: refint's infinitely sign-extended two's-complement view; ~0 where the manual says infinite/absent. Non-trivial: an operand of >= 2 limbs. Distinct = hash of all decoded choices.",
-  check, nullptr, {"signs:--", "signs:mixed", "low_zero_limbs", "bit_above_top", "scan_none_found", "result_grew_a_limb", "hamdist_both_negative", "size_changed"}};
+  check, nullptr, {"signs:--", "signs:mixed", "low_zero_limbs", "bit_above_top", "scan_none_found", "result_grew_a_limb", "hamdist_both_negative", "size_changed"}, nullptr, sweep_count, sweep_item,
+  "every pair of signed values of up to three limbs with limbs from {0,1,2^63-1,2^63,2^64-2,2^64-1} (432 x 432): mpz_and/ior/xor (also in place), mpz_hamdist; for every value and bit position in {0,1,62..65,127..129,191,192,300}: mpz_com, tstbit, setbit, clrbit, combit, scan0, scan1, popcount"};
 }
